@@ -216,7 +216,7 @@ impl Prop for C16 {
         "C16"
     }
     fn rule(&self) -> String {
-        "phonetic: every emoji-capable text typed with ANSI off, then again after update_engine switched ANSI on in the same context; the C07 text sources (strided) typed in 5 ANSI contexts (suggestions on/off x English on/off x smart quotes) and 3 non-ANSI ones; \
+        "phonetic: every emoji-capable text typed with ANSI off, then again after update_engine switched ANSI on in the same context; ten texts for which the harness first *chooses* an emoji or the raw English text with ANSI off (so that the choice is in the store), typed with ANSI on in the same context and in a new one; the C07 text sources (strided) typed in 5 ANSI contexts (suggestions on/off x English on/off x smart quotes) and 3 non-ANSI ones; \
          fixed: prefixes of dictionary words (every 60th quick, every 6th thorough), Bengali emoji names, emoticon key sequences and random key histories over both planes of Probhat and the synthetic layout in 3 ANSI and 3 non-ANSI contexts; \
          data-exhaustive (through Suggestion::new / new_lonely with ANSI on): every word of dictionary.json, every suffix value, every transliterated auto-correct value, and every suffix-joined form of the auto-correct values (strided in quick), \
          plus every 200th (quick) / 20th (thorough) dictionary word typed in fixed mode. Every candidate's pre-edit text is compared with poriborton's encoder called directly and scanned for U+0980-U+09FF. \
